@@ -232,14 +232,50 @@ def exc_name(e: BaseException) -> str:
     return type(e).__name__
 
 
+class CallTimeout(BaseException):
+    """Raised by the SIGALRM handler inside `call` (BaseException: library code must not swallow it)."""
+
+
+CALL_TIMEOUT_S = float(os.environ.get("VERIF_CALL_TIMEOUT", "120"))
+NO_ANSWER = "NoAnswerWithinTimeLimit"
+
+
+def _call_alarm(signum, frame):
+    raise CallTimeout()
+
+
 def call(f: Callable[[], Any]):
-    """Run real code; ("ok", value) or ("err", ExceptionClassName)."""
+    """Run real code; ("ok", value) or ("err", ExceptionClassName).  A call that does not return
+    within CALL_TIMEOUT_S (generous: the inputs are tiny) is reported as ("err", NO_ANSWER) instead
+    of hanging the check — on a changed tree a loop that no longer terminates is an observable like
+    any other, and it then differs from the model / the oracle with this input as replay."""
+    import signal
+    import threading
+    armed = CALL_TIMEOUT_S > 0 and threading.current_thread() is threading.main_thread()
+    if armed:
+        outer_left = signal.getitimer(signal.ITIMER_REAL)[0]
+        if 0 < outer_left <= CALL_TIMEOUT_S:
+            armed = False      # an enclosing, tighter watchdog is in charge
+    if armed:
+        old_handler = signal.signal(signal.SIGALRM, _call_alarm)
+        signal.setitimer(signal.ITIMER_REAL, CALL_TIMEOUT_S)
+        t0 = time.time()
     try:
         return ("ok", f())
+    except CallTimeout:
+        if not armed:
+            raise
+        return ("err", NO_ANSWER)
     except RecursionError:
         raise
     except Exception as e:  # noqa: BLE001 - every exception class is an observable
         return ("err", exc_name(e))
+    finally:
+        if armed:
+            signal.setitimer(signal.ITIMER_REAL, 0)
+            signal.signal(signal.SIGALRM, old_handler)
+            if outer_left:
+                signal.setitimer(signal.ITIMER_REAL, max(0.05, outer_left - (time.time() - t0)))
 
 
 # ---------------------------------------------------- plain-data automata
